@@ -1,5 +1,5 @@
 from .binner import Binner
-from taurex.util.util import compute_bin_edges
+from taurex.util.util import compute_bin_edges, wnwidth_to_wlwidth
 import numpy as np
 from taurex import OutputSize
 
@@ -174,5 +174,6 @@ class FluxBinner(Binner):
         output['binned_wngrid'] = self._wngrid
         output['binned_wlgrid'] = 10000/self._wngrid
         output['binned_wnwidth'] = self._wngrid_width
-        output['binned_wlwidth'] = 1.0/self._wngrid_width
+        output['binned_wlwidth'] = wnwidth_to_wlwidth(self._wngrid,
+                                                      self._wngrid_width)
         return output
